@@ -2,7 +2,6 @@ package main
 
 import (
 	"bytes"
-	"sync"
 	"crypto/sha256"
 	"encoding/hex"
 	"encoding/json"
@@ -11,6 +10,7 @@ import (
 	"path/filepath"
 	"sort"
 	"strings"
+	"sync"
 	"time"
 
 	"ddpsim/fwproto"
@@ -647,28 +647,28 @@ func checkSrcsim(prop, tier string) int {
 		"rule": "one evaluation = one parser.Parse call of the real frontend on a simulated disk (corpus program + delivery faults). " +
 			"thorough tier enumerates every truncation offset and every single word-block fault of every corpus file; quick tier samples them from VERIF_SEED. " +
 			"distinct_nontrivial = number of distinct (returned-error?, faulty flag, sequence of diagnostic codes) outcomes observed",
-		"samples":                   samples,
-		"exhaustive":                false,
-		"runs":                      len(results),
-		"runs_by_class":             classes,
-		"fault_kinds_fired":         fired,
+		"samples":                          samples,
+		"exhaustive":                       false,
+		"runs":                             len(results),
+		"runs_by_class":                    classes,
+		"fault_kinds_fired":                fired,
 		"fault_kinds_configured_not_fired": notFired,
-		"runs_per_hour":             perHour(len(results), simWall),
-		"seeds_per_hour":            perHour(1, time.Since(startT)),
-		"simulated_time_s":          0,
-		"simulated_time_note":       "nothing in the frontend reads a clock; there is no simulated time to advance",
-		"event_log_sha256":          hex.EncodeToString(evHash.Sum(nil)),
-		"worker_deaths":             pool.Restarts.Load(),
-		"watchdog_candidates":       pool.Candidates.Load(),
-		"watchdog_unconfirmed":      unconfirmed,
-		"violation_groups":          len(groups),
-		"violation_groups_known":    len(groups) - newViol,
-		"corpus_files":              len(corpus),
-		"components_real":           []string{"src/scanner", "src/parser", "src/parser/resolver", "src/parser/typechecker", "src/ast/annotators", "src/ddperror (renderer)", "os.ReadFile / filepath.WalkDir on a real tmpfs tree"},
-		"components_simulated":      []string{"the content and shape of the source tree (every byte written by the simulator)"},
-		"single_fault_enumeration":  tier == "thorough",
-		"kddp_cli_runs":             cliRuns,
-		"kddp_cli_outcomes":         cliStats,
+		"runs_per_hour":                    perHour(len(results), simWall),
+		"seeds_per_hour":                   perHour(1, time.Since(startT)),
+		"simulated_time_s":                 0,
+		"simulated_time_note":              "nothing in the frontend reads a clock; there is no simulated time to advance",
+		"event_log_sha256":                 hex.EncodeToString(evHash.Sum(nil)),
+		"worker_deaths":                    pool.Restarts.Load(),
+		"watchdog_candidates":              pool.Candidates.Load(),
+		"watchdog_unconfirmed":             unconfirmed,
+		"violation_groups":                 len(groups),
+		"violation_groups_known":           len(groups) - newViol,
+		"corpus_files":                     len(corpus),
+		"components_real":                  []string{"src/scanner", "src/parser", "src/parser/resolver", "src/parser/typechecker", "src/ast/annotators", "src/ddperror (renderer)", "os.ReadFile / filepath.WalkDir on a real tmpfs tree"},
+		"components_simulated":             []string{"the content and shape of the source tree (every byte written by the simulator)"},
+		"single_fault_enumeration":         tier == "thorough",
+		"kddp_cli_runs":                    cliRuns,
+		"kddp_cli_outcomes":                cliStats,
 	}
 	ev.Assumptions = []string{
 		"the space explored is the fault closure (<=3 faults) of the repository's 157 DDP files plus generated module sets, not all byte strings",
